@@ -34,9 +34,71 @@ static Obs via_stream(const std::string& s, const json_options& o) {
     Obs r; std::istringstream is(s); try { r.j = json::parse(is, o); r.ok = true; } catch (const ser_error& e) { r.err = e.code().message(); } return r;
 }
 
+// ---- wchar_t flavour: the same text as a sequence of code points (only texts that are valid UTF-8 have one); the wide value is
+// narrowed back (strings and names re-encoded as UTF-8, kinds and tags kept) and compared with the same prediction
+static bool to_wide(const std::string& s, std::wstring& w) {
+    size_t i = 0, n = s.size();
+    while (i < n) { unsigned char c = (unsigned char)s[i]; uint32_t cp; int len;
+        if (c < 0x80) { cp = c; len = 1; } else if (c >= 0xC2 && c <= 0xDF) { cp = c & 0x1F; len = 2; } else if (c >= 0xE0 && c <= 0xEF) { cp = c & 0x0F; len = 3; } else if (c >= 0xF0 && c <= 0xF4) { cp = c & 0x07; len = 4; } else return false;
+        if (i + len > n) return false;
+        for (int k = 1; k < len; ++k) { unsigned char t = (unsigned char)s[i + k]; if ((t & 0xC0) != 0x80) return false; cp = (cp << 6) | (t & 0x3F); }
+        if ((len == 3 && cp < 0x800) || (len == 4 && (cp < 0x10000 || cp > 0x10FFFF)) || (cp >= 0xD800 && cp <= 0xDFFF)) return false;
+        w.push_back((wchar_t)cp); i += len; }
+    return true;
+}
+static std::string to_utf8(const std::wstring& w) {
+    std::string s;
+    for (wchar_t wc : w) { uint32_t cp = (uint32_t)wc;
+        if (cp < 0x80) s.push_back((char)cp); else if (cp < 0x800) { s.push_back((char)(0xC0 | (cp >> 6))); s.push_back((char)(0x80 | (cp & 0x3F))); }
+        else if (cp < 0x10000) { s.push_back((char)(0xE0 | (cp >> 12))); s.push_back((char)(0x80 | ((cp >> 6) & 0x3F))); s.push_back((char)(0x80 | (cp & 0x3F))); }
+        else { s.push_back((char)(0xF0 | (cp >> 18))); s.push_back((char)(0x80 | ((cp >> 12) & 0x3F))); s.push_back((char)(0x80 | ((cp >> 6) & 0x3F))); s.push_back((char)(0x80 | (cp & 0x3F))); } }
+    return s;
+}
+template <class WJ, class J>
+static J narrow(const WJ& w) {
+    switch (w.type()) {
+        case json_type::null: return J::null();
+        case json_type::boolean: return J(w.template as<bool>());
+        case json_type::int64: return J(w.template as<int64_t>(), w.tag());
+        case json_type::uint64: return J(w.template as<uint64_t>(), w.tag());
+        case json_type::float64: return J(w.template as<double>(), w.tag());
+        case json_type::string: return J(to_utf8(w.template as<std::wstring>()), w.tag());
+        case json_type::array: { J a(json_array_arg); for (const auto& e : w.array_range()) a.push_back(narrow<WJ, J>(e)); return a; }
+        case json_type::object: { J o(json_object_arg); for (const auto& kv : w.object_range()) o.insert_or_assign(to_utf8(std::wstring(kv.key())), narrow<WJ, J>(kv.value())); return o; }
+        default: return J("unexpected-kind", semantic_tag::ext);
+    }
+}
+using wjson_options_t = basic_json_options<wchar_t>;
+static wjson_options_t wmk(bool c, bool t, int L) { wjson_options_t o; o.allow_comments(c).allow_trailing_comma(t).max_nesting_depth(L); return o; }
+static Obs via_wparse(const std::wstring& s, const wjson_options_t& o) {
+    Obs r; try { wjson w = wjson::parse(s, o); r.j = narrow<wjson, json>(w); r.ok = true; } catch (const ser_error& e) { r.err = e.code().message(); } return r;
+}
+static Obs via_woparse(const std::wstring& s, const wjson_options_t& o) {
+    Obs r; r.ordered = true; try { wojson w = wojson::parse(s, o); r.oj = narrow<wojson, ojson>(w); r.ok = true; } catch (const ser_error& e) { r.err = e.code().message(); } return r;
+}
+static Obs via_wreader(const std::wstring& s, const wjson_options_t& o) {
+    Obs r; json_decoder<wjson> d; std::error_code ec; wjson_string_reader rd(s, d, o); rd.read(ec);
+    if (ec) { r.err = ec.message(); return r; }
+    if (!d.is_valid()) { r.err = "decoder not valid"; return r; }
+    r.j = narrow<wjson, json>(d.get_result()); r.ok = true; return r;
+}
+static Obs via_wparser(const std::wstring& s, const wjson_options_t& o) {
+    Obs r; json_decoder<wjson> d; std::error_code ec; wjson_parser p(o);
+    p.update(s.data(), s.size()); p.finish_parse(d, ec);
+    if (!ec) p.check_done(ec);
+    if (ec) { r.err = ec.message(); return r; }
+    if (!d.is_valid()) { r.err = "decoder not valid"; return r; }
+    r.j = narrow<wjson, json>(d.get_result()); r.ok = true; return r;
+}
+static Obs via_wstream(const std::wstring& s, const wjson_options_t& o) {
+    Obs r; std::wistringstream is(s); try { wjson w = wjson::parse(is, o); r.j = narrow<wjson, json>(w); r.ok = true; } catch (const ser_error& e) { r.err = e.code().message(); } return r;
+}
+
 int main(int argc, char** argv) {
     auto args = hz::parse_args(argc, argv);
     long ncases = 0, nchecks = 0, nacc = 0, ndc = 0;
+    typedef Obs (*WFn)(const std::wstring&, const wjson_options_t&);
+    struct { const char* name; WFn f; } wentries[] = {{"wparse", via_wparse}, {"woparse", via_woparse}, {"wreader", via_wreader}, {"wparser", via_wparser}, {"wstream", via_wstream}};
     typedef Obs (*Fn)(const std::string&, const json_options&);
     struct { const char* name; Fn f; } entries[] = {{"parse", via_parse}, {"oparse", via_oparse}, {"reader", via_reader}, {"parser", via_parser}, {"stream", via_stream}};
     hz::for_each_case(args, [&](size_t idx, const std::string& line) {
@@ -51,8 +113,11 @@ int main(int argc, char** argv) {
             bool expect = acc && (!uc || oc) && (!ut || ot) && dep <= L;
             bool care = !dc && !(tc && oc);
             json_options o = mk(oc, ot, L);
-            for (auto& en : entries) {
-                Obs r = en.f(text, o);
+            std::wstring wtext; bool has_wide = to_wide(text, wtext); wjson_options_t wo = wmk(oc, ot, L);
+            for (int en_i = 0; en_i < 10; ++en_i) {
+                if (en_i >= 5 && !has_wide) break;
+                struct { const char* name; } en = { en_i < 5 ? entries[en_i].name : wentries[en_i - 5].name };
+                Obs r = en_i < 5 ? entries[en_i].f(text, o) : wentries[en_i - 5].f(wtext, wo);
                 ++nchecks;
                 if (!care) continue;
                 std::string why;
